@@ -101,7 +101,7 @@ structure GraphWF (inits : List TensorP) (inputs outputs vis : List ValueInfoP) 
   wfVis : vis.all wfVI = true
   nodupVis : (vis.map (·.name)).Nodup
   visNotIO : ∀ vi ∈ vis, vi.name ∉ inputs.map (·.name) ∧ vi.name ∉ outputs.map (·.name)
-  nodupOut : (outputs.map (·.name)).Nodup
+  consOut : ConsOut outputs
   wfInit : inits.all (fun t => wfTensor t && validDType t.dataType) = true
   nodupQuant : (quant.map (·.tensorName)).Nodup
   quantOK : ∀ a ∈ quant, a.tensorName ∈ scopeNames (inputs.map (·.name)) (inits.map (·.name)) outs
@@ -196,11 +196,28 @@ theorem find?_of_nodup {α : Type} (key : α → String) {l : List α} (h : (l.m
         intro e; exact h.1 (by rw [e]; exact List.mem_map_of_mem ha)
       simp [List.find?_cons, this, ih h.2 ha]
 
-theorem outUpd_of_mem {outputs : List ValueInfoP} (h : (outputs.map (·.name)).Nodup) {vo : ValueInfoP}
+theorem find?_of_consOut {outputs : List ValueInfoP} (h : ConsOut outputs) {vo : ValueInfoP}
+    (hvo : vo ∈ outputs) : outputs.find? (fun x => x.name = vo.name) = some vo := by
+  cases hf : outputs.find? (fun x => x.name = vo.name) with
+  | none => exact absurd (by simp) (List.find?_eq_none.1 hf vo hvo)
+  | some w =>
+    have hw : w ∈ outputs := List.mem_of_find?_eq_some hf
+    have hn : w.name = vo.name := by simpa using List.find?_some hf
+    rw [h w hw vo hvo hn]
+
+theorem findVI_of_mem_cons {outputs : List ValueInfoP} (h : ConsOut outputs) {vo : ValueInfoP}
+    (hvo : vo ∈ outputs) : findVI outputs vo.name = some vo := by
+  cases hf : findVI outputs vo.name with
+  | none => exact absurd (List.mem_map_of_mem hvo) (findVI_none_iff.1 hf)
+  | some w =>
+    obtain ⟨hw, hn⟩ := findVI_mem hf
+    rw [h w hw vo hvo hn]
+
+theorem outUpd_of_mem {outputs : List ValueInfoP} (h : ConsOut outputs) {vo : ValueInfoP}
     (hvo : vo ∈ outputs) {v : IRValue} (hn : v.name = vo.name) :
     outUpd outputs v = applyInfoT v vo := by
   unfold outUpd
-  rw [hn, find?_of_nodup (·.name) h hvo]
+  rw [hn, find?_of_consOut h hvo]
 
 theorem dictSet_of_mem {d : Dict} {k v : String} (hnd : (dkeys d).Nodup) (h : (k, v) ∈ d) :
     dictSet d k v = d := by
@@ -328,18 +345,14 @@ theorem serValue_inFinal (hw : GraphWF inits inputs outputs vis quant outs) {vi 
   | none =>
     have hno : (constFrom inits (inputValT quant vi)).name ∉ outputs.map (·.name) := by
       simp only [constFrom_name, inputValT_name]
-      intro hm
-      obtain ⟨vo, hvo, hn⟩ := List.mem_map.1 hm
-      have := find?_of_nodup (fun v : ValueInfoP => v.name) hw.nodupOut hvo
-      rw [findVI, findLast?_eq_find? (fun v : ValueInfoP => v.name) vi.name _ hw.nodupOut, ← hn, this] at hf
-      cases hf
+      exact findVI_none_iff.1 hf
     rw [inFinal, outUpd_id hno, serValue_congr hsame]
     exact serValue_applyInfoT_blank vi hwfi
   | some vo =>
     obtain ⟨hvo, hn⟩ := findVI_mem hf
     have hwfo := List.all_eq_true.1 hw.wfOut vo hvo
     simp only [wfVI, Bool.and_eq_true] at hwfo
-    rw [inFinal, outUpd_of_mem hw.nodupOut hvo (by simp [hn])]
+    rw [inFinal, outUpd_of_mem hw.consOut hvo (by simp [hn])]
     have h3 := (applyInfo_eq (IRValue.blank vo.name) vo hwfo.1).2.1
     have hmp : (constFrom inits (inputValT quant vi)).mprops = dictOfEntries vi.metadata := by
       rw [hsame.2.2.2.2]
@@ -419,7 +432,7 @@ theorem ser_outputs (hw : GraphWF inits inputs outputs vis quant outs) :
       have hm := mem_tblFinal_input hw hvi
       rw [getD_tblFinal hw hl hm (by simp [hn])]
       rw [serValue_inFinal hw hvi]
-      have h1 : findVI outputs vi.name = some vo := by rw [hn]; exact findVI_of_mem hw.nodupOut hvo
+      have h1 : findVI outputs vi.name = some vo := by rw [hn]; exact findVI_of_mem_cons hw.consOut hvo
       have h2 : findVI inputs vo.name = some vi := by rw [← hn]; exact findVI_of_mem hw.nodupIn hvi
       simp only [normInputVI, normOutputVI, h1, h2]
     rw [hnorm hin]
@@ -427,7 +440,7 @@ theorem ser_outputs (hw : GraphWF inits inputs outputs vis quant outs) :
     · -- constant output: the output is a (non-input) initializer
       obtain ⟨p, hp, hpn⟩ := List.mem_map.1 hinit
       have hm := mem_tblFinal_init hw hp (by rw [hpn]; exact hin)
-      rw [outUpd_of_mem hw.nodupOut hvo (by simp [hpn])] at hm
+      rw [outUpd_of_mem hw.consOut hvo (by simp [hpn])] at hm
       rw [getD_tblFinal hw hl hm (by simp [hpn])]
       rw [serValue_congr (sameInfo_out_init hw hp hvo hpn)]
       exact serValue_applyInfoT_blank vo hwf
@@ -438,7 +451,7 @@ theorem ser_outputs (hw : GraphWF inits inputs outputs vis quant outs) :
       · exact absurd h.1 hno2
       · exact h
     have hv := mem_tblFinal_out hw hout
-    rw [outUpd_of_mem hw.nodupOut hvo (by simp)] at hv
+    rw [outUpd_of_mem hw.consOut hvo (by simp)] at hv
     rw [getD_tblFinal hw hl hv (by simp)]
     have hnv : newValueT vis quant vo.name = applyQuant quant (IRValue.blank vo.name) := by
       simp [newValueT, findVI_none_of_output hw (List.mem_map_of_mem (f := (·.name)) hvo)]
@@ -662,7 +675,7 @@ theorem ser_inits (hw : GraphWF inits inputs outputs vis quant outs) :
             -- constant output: the value carries the info of the output entry
             have hvo := findVI_mem hfo
             have hsame := sameInfo_out_init hw hp hvo.1 hvo.2.symm
-            rw [outUpd_of_mem hw.nodupOut hvo.1 (by simp [hvo.2])]
+            rw [outUpd_of_mem hw.consOut hvo.1 (by simp [hvo.2])]
             rw [shouldCreateVI_congr hsame, serValue_congr hsame,
               shouldCreateVI_applyInfoT_blank vo (List.all_eq_true.1 hw.wfOut vo hvo.1),
               serValue_applyInfoT_blank vo (List.all_eq_true.1 hw.wfOut vo hvo.1), hvo.2, hnee]
@@ -670,12 +683,7 @@ theorem ser_inits (hw : GraphWF inits inputs outputs vis quant outs) :
           | none =>
             have hno : (initValT vis quant p).name ∉ outputs.map (·.name) := by
               simp only [initValT_name]
-              intro hm
-              obtain ⟨vo, hvo, hn⟩ := List.mem_map.1 hm
-              have := find?_of_nodup (fun v : ValueInfoP => v.name) hw.nodupOut hvo
-              rw [findVI, findLast?_eq_find? (fun v : ValueInfoP => v.name) p.name _ hw.nodupOut,
-                ← hn, this] at hfo
-              cases hfo
+              exact findVI_none_iff.1 hfo
             rw [outUpd_id hno]
             have hs := serValue_initValT (quant := quant) hw.wfVis p (irT_dtype p hwp.1 hwp.2).2
             have hsc : shouldCreateVI (initValT vis quant p) = true := by
@@ -841,21 +849,69 @@ theorem quantInputs_spec (tbl : List IRValue) (initNames : List String) :
             · exact hdis k (List.mem_cons_of_mem _ hk) hm)]
       simp
 
+theorem normQuantFor_single_none {q : List AnnotP} {n : String} (h : findAnnot q n = none) :
+    normQuantFor q [n] = [] := by
+  simp [normQuantFor, h]
+
+theorem filter_ne_filter {l : List String} {q : String → Bool} {n : String} (h : q n = false) :
+    (l.filter (· ≠ n)).filter q = l.filter q := by
+  rw [List.filter_filter]
+  apply List.filter_congr
+  intro m _
+  by_cases hm : m = n
+  · subst hm; simp [h]
+  · simp [hm]
+
+/-- the output names the output loop annotates: the first occurrences (`sn` = the names already met) of
+the names that satisfy `P` -/
+def qNames (P : String → Bool) : List String → List String → List String
+  | [], _ => []
+  | n :: ns, sn => if P n && !sn.contains n then n :: qNames P ns (n :: sn) else qNames P ns sn
+
+theorem qNames_eq (P : String → Bool) : ∀ (l sn : List String),
+    qNames P l sn = ((dedupStr l).filter (fun n => !sn.contains n)).filter P
+  | [], _ => rfl
+  | n :: ns, sn => by
+    simp only [qNames, dedupStr]
+    by_cases hc : (P n && !sn.contains n) = true
+    · simp only [hc, if_true]
+      simp only [Bool.and_eq_true, Bool.not_eq_true'] at hc
+      rw [qNames_eq P ns (n :: sn)]
+      simp only [List.filter_cons, hc.1, hc.2, Bool.not_false, if_true]
+      congr 1
+      rw [List.filter_filter, List.filter_filter, List.filter_filter]
+      apply List.filter_congr
+      intro m _
+      by_cases hm : m = n
+      · simp [hm]
+      · simp [hm, List.contains_cons]
+    · simp only [hc, Bool.false_eq_true, if_false]
+      rw [qNames_eq P ns sn]
+      have hq : (fun a => P a && !sn.contains a) n = false := by simpa using hc
+      simp only [List.filter_filter]
+      rw [List.filter_cons]
+      simp only [hq, Bool.false_eq_true, if_false]
+      exact (filter_ne_filter hq).symm
+
+/-- the output loop of the annotations.  Entries may repeat a name (E4): a value is annotated once (the
+`seen` list of the serializer; `sn` = the corresponding names). -/
 theorem quantOutputs_spec (hw : GraphWF inits inputs outputs vis quant outs) :
-    ∀ (vos : List ValueInfoP) (seen : List Nat), (vos.map (·.name)).Nodup → (∀ vo ∈ vos, vo ∈ outputs) →
+    ∀ (vos : List ValueInfoP) (seen : List Nat) (sn : List String), (∀ vo ∈ vos, vo ∈ outputs) →
       (∀ vo ∈ vos, ∀ j, lookupLast (scopeNames (inputs.map (·.name)) (inits.map (·.name)) outs) vo.name
           = some j → (vo.name ∈ inputs.map (·.name) ∨ vo.name ∈ inits.map (·.name) → j ∈ seen)
-            ∧ (vo.name ∉ inputs.map (·.name) → vo.name ∉ inits.map (·.name) → j ∉ seen)) →
+            ∧ (vo.name ∉ inputs.map (·.name) → vo.name ∉ inits.map (·.name) →
+                (j ∈ seen ↔ vo.name ∈ sn))) →
       quantOutputs (tblFinal inits inputs outputs vis quant outs)
           (vos.map (gOutT (scopeNames (inputs.map (·.name)) (inits.map (·.name)) outs))) seen
-        = normQuantFor quant ((vos.map (·.name)).filter
-            (fun n => !(inputs.map (·.name)).contains n && !(inits.map (·.name)).contains n))
+        = normQuantFor quant (qNames
+            (fun n => !(inputs.map (·.name)).contains n && !(inits.map (·.name)).contains n)
+            (vos.map (·.name)) sn)
   | [], _, _, _, _ => rfl
-  | vo :: vos, seen, hnd, hsub, hdis => by
-    simp only [List.map_cons, List.nodup_cons] at hnd
+  | vo :: vos, seen, sn, hsub, hdis => by
     have hvo : vo ∈ outputs := hsub vo (by simp)
-    rw [List.map_cons, List.map_cons, List.filter_cons]
-    simp only [gOutT]
+    have hsub' : ∀ v ∈ vos, v ∈ outputs := fun v hv => hsub v (List.mem_cons_of_mem _ hv)
+    rw [List.map_cons, List.map_cons]
+    simp only [gOutT, qNames]
     cases hl : lookupLast (scopeNames (inputs.map (·.name)) (inits.map (·.name)) outs) vo.name with
     | none =>
       -- a graph output nobody produces carries no annotation, and none is declared for its name
@@ -869,17 +925,30 @@ theorem quantOutputs_spec (hw : GraphWF inits inputs outputs vis quant outs) :
         | some a =>
           have := findAnnot_name hf
           exact absurd (by rw [← this.2]; exact (hw.quantOK a this.1).1) hnm
-      have hni : vo.name ∉ inputs.map (·.name) := fun h => hnm (mem_scopeNames.2 (Or.inl h))
-      have hnn : vo.name ∉ inits.map (·.name) := by
-        intro h
-        exact hnm (mem_scopeNames.2 (Or.inr (Or.inl ⟨h, hni⟩)))
-      have hc1 : (inputs.map (·.name)).contains vo.name = false := by simpa using hni
-      have hc2 : (inits.map (·.name)).contains vo.name = false := by simpa using hnn
-      simp only [quantOutputs, hc1, hc2, Bool.not_false, Bool.and_self, if_true]
-      rw [quantOutputs_spec hw vos seen hnd.2 (fun v hv => hsub v (List.mem_cons_of_mem _ hv))
-        (fun v hv j hj => hdis v (List.mem_cons_of_mem _ hv) j hj), normQuantFor_cons quant vo.name]
-      congr 1
-      simp [quantOf, applyInfoT, IRValue.blank, normQuantFor, hfa]
+      have hq0 : quantOf (applyInfoT (IRValue.blank vo.name) vo) = [] := by
+        simp [quantOf, applyInfoT, IRValue.blank]
+      simp only [quantOutputs, hq0, List.nil_append]
+      -- the names of `sn` play no role for the values of the scope
+      have hdis' : ∀ (sn' : List String), (∀ m, m ∈ sn' ↔ m ∈ sn ∨ m = vo.name) → ∀ v ∈ vos, ∀ j,
+          lookupLast (scopeNames (inputs.map (·.name)) (inits.map (·.name)) outs) v.name = some j →
+          (v.name ∈ inputs.map (·.name) ∨ v.name ∈ inits.map (·.name) → j ∈ seen)
+            ∧ (v.name ∉ inputs.map (·.name) → v.name ∉ inits.map (·.name) → (j ∈ seen ↔ v.name ∈ sn')) := by
+        intro sn' hsn' v hv j hj
+        obtain ⟨a, b⟩ := hdis v (List.mem_cons_of_mem _ hv) j hj
+        refine ⟨a, fun h h' => ?_⟩
+        rw [b h h', hsn']
+        constructor
+        · exact Or.inl
+        · rintro (h1 | h1)
+          · exact h1
+          · exact absurd (by rw [← h1]; exact lookupLast_mem hj) hnm
+      split
+      · rw [quantOutputs_spec hw vos seen (vo.name :: sn) hsub'
+          (hdis' (vo.name :: sn) (fun m => by simp [or_comm])),
+          normQuantFor_cons quant vo.name, normQuantFor_single_none hfa]
+        rfl
+      · exact quantOutputs_spec hw vos seen sn hsub'
+          (fun v hv j hj => hdis v (List.mem_cons_of_mem _ hv) j hj)
     | some j =>
       obtain ⟨hdin, hdout⟩ := hdis vo (by simp) j hl
       by_cases hin : vo.name ∈ inputs.map (·.name) ∨ vo.name ∈ inits.map (·.name)
@@ -893,25 +962,44 @@ theorem quantOutputs_spec (hw : GraphWF inits inputs outputs vis quant outs) :
             rw [this]; rfl
           · have : (inits.map (·.name)).contains vo.name = true := by simpa using h
             rw [this]; simp
-        simp only [quantOutputs, hj, Bool.not_true, Bool.false_eq_true, if_false, hc1]
-        exact quantOutputs_spec hw vos seen hnd.2 (fun v hv => hsub v (List.mem_cons_of_mem _ hv))
+        simp only [quantOutputs, hj, Bool.not_true, Bool.false_eq_true, if_false, hc1, Bool.false_and]
+        exact quantOutputs_spec hw vos seen sn hsub'
           (fun v hv k hk => hdis v (List.mem_cons_of_mem _ hv) k hk)
       · have hno2 : vo.name ∉ inits.map (·.name) := fun h => hin (Or.inr h)
         have hin : vo.name ∉ inputs.map (·.name) := fun h => hin (Or.inl h)
-        have hj : seen.contains j = false := by simpa using hdout hin hno2
         have hc1 : (inputs.map (·.name)).contains vo.name = false := by simpa using hin
         have hc2 : (inits.map (·.name)).contains vo.name = false := by simpa using hno2
-        simp only [quantOutputs, hj, Bool.not_false, if_true, hc1, hc2, Bool.and_self]
-        rw [quantOutputs_spec hw vos (j :: seen) hnd.2 (fun v hv => hsub v (List.mem_cons_of_mem _ hv))
+        have hiff := hdout hin hno2
+        by_cases hjs : seen.contains j = true
+        · -- a later entry of a repeated name: the value was annotated by an earlier entry
+          have hsn : sn.contains vo.name = true := by simpa using hiff.1 (by simpa using hjs)
+          simp only [quantOutputs, hjs, Bool.not_true, Bool.false_eq_true, if_false, hc1, hc2,
+            Bool.not_false, Bool.true_and, hsn]
+          exact quantOutputs_spec hw vos seen sn hsub'
+            (fun v hv k hk => hdis v (List.mem_cons_of_mem _ hv) k hk)
+        have hj : seen.contains j = false := by simpa using hjs
+        have hsn : sn.contains vo.name = false := by
+          cases hs : sn.contains vo.name with
+          | false => rfl
+          | true => exact absurd (by simpa using hiff.2 (by simpa using hs)) hjs
+        simp only [quantOutputs, hj, Bool.not_false, if_true, hc1, hc2, Bool.and_self, hsn]
+        rw [quantOutputs_spec hw vos (j :: seen) (vo.name :: sn) hsub'
           (by intro v hv k hk
               obtain ⟨a, b⟩ := hdis v (List.mem_cons_of_mem _ hv) k hk
-              refine ⟨fun h => List.mem_cons_of_mem _ (a h), fun h h' hm => ?_⟩
-              rcases List.mem_cons.1 hm with rfl | hm
-              · have h1 := lookupLast_getElem hk
-                have h2 := lookupLast_getElem hl
-                rw [h1] at h2
-                exact hnd.1 (by rw [← Option.some.inj h2]; exact List.mem_map_of_mem hv)
-              · exact b h h' hm), normQuantFor_cons quant vo.name]
+              refine ⟨fun h => List.mem_cons_of_mem _ (a h), fun h h' => ?_⟩
+              have hkj : k = j ↔ v.name = vo.name := by
+                constructor
+                · intro e
+                  subst e
+                  have h1 := lookupLast_getElem hk
+                  have h2 := lookupLast_getElem hl
+                  rw [h1] at h2
+                  exact Option.some.inj h2
+                · intro e
+                  rw [e, hl] at hk
+                  exact (Option.some.inj hk).symm
+              simp only [List.mem_cons, hkj, b h h']),
+          normQuantFor_cons quant vo.name]
         congr 1
         have hmem := lookupLast_mem hl
         have hout : vo.name ∈ outs := by
@@ -943,7 +1031,7 @@ theorem graphWF_of_wf (outer : Scopes) (name doc : String) (nodes : List NodeP)
   simp only [wfGraph, Bool.and_eq_true] at h
   obtain ⟨⟨⟨⟨⟨⟨⟨⟨⟨⟨⟨⟨⟨h1, h2⟩, h3⟩, h4⟩, h5⟩, h6⟩, h7⟩, h8⟩, h9⟩, h11⟩, h12⟩, h13⟩, _h14⟩, h15⟩ := h
   refine ⟨⟨nodupStr_iff.1 h1, nodupStr_all_nonempty h2, nodupStr_iff.1 h3, h4, h5, h6, nodupStr_iff.1 h7,
-    ?_, nodupStr_iff.1 h9, h11, nodupStr_iff.1 h12, ?_⟩, h15⟩
+    ?_, consOutputs_iff.1 h9, h11, nodupStr_iff.1 h12, ?_⟩, h15⟩
   · intro vi hvi
     have := List.all_eq_true.1 h8 vi hvi
     simpa using this
@@ -1061,7 +1149,7 @@ theorem graph_core (outer : Scopes) (ver : Option Int) (name doc : String) (node
   rw [hNpre] at hD2 hD3
   -- phase E
   have hE := desGraphOutputs_spec outputs (tblPre inits inputs vis quant (nodeOutNames nodes))
-    hw.wfOut hw.nodupOut (by rw [hNpre]; exact hw.nodupNames)
+    hw.wfOut hw.consOut (by rw [hNpre]; exact hw.nodupNames)
   rw [hNpre] at hE
   refine ⟨IRGraph.mk (tblFinal inits inputs outputs vis quant (nodeOutNames nodes))
     (List.range inputs.length) (dedupNat idxs) xs
@@ -1172,12 +1260,12 @@ theorem graph_core (outer : Scopes) (ver : Option Int) (name doc : String) (node
     have f_qout := quantOutputs_spec hw outputs
       (idxs.reverse ++ (((List.range inputs.length).filter (fun i => !(inits.map (·.name)).contains
         ((tblFinal inits inputs outputs vis quant (nodeOutNames nodes)).getD i (IRValue.blank "")).name)).reverse ++ []))
-      hw.nodupOut (fun _ h => h)
+      [] (fun _ h => h)
       (by
         intro vo hvo j hj
         have hjname := getD_name_of_lookup (tblFinal inits inputs outputs vis quant (nodeOutNames nodes))
           (by rw [hNfin]; exact hj)
-        refine ⟨fun hin0 => ?_, fun hin hno2 hm => ?_⟩
+        refine ⟨fun hin0 => ?_, fun hin hno2 => ⟨fun hm => False.elim ?_, fun h => by cases h⟩⟩
         · -- a pass-through / constant output: its value was annotated by the input or the
           -- initializer loop
           simp only [List.append_nil, List.mem_append, List.mem_reverse, List.mem_filter,
@@ -1216,6 +1304,9 @@ theorem graph_core (outer : Scopes) (ver : Option Int) (name doc : String) (node
             rw [← hjname, ← f_inputNames]
             exact List.mem_map_of_mem (f := fun i => ((tblFinal inits inputs outputs vis quant
               (nodeOutNames nodes)).getD i (IRValue.blank "")).name) (List.mem_range.2 hm.1))
+    have hft : ∀ l : List String, l.filter (fun n => !([] : List String).contains n) = l := by
+      intro l; simp
+    rw [qNames_eq, hft] at f_qout
     simp only [serGraph, hNfin, f_idx, s3, f_inputNames, f_qin, f_qinit, hD2, hD3, n1, n2, f_qout, s1,
       s2, ser_inputs hw, ser_outputs hw, bind, Except.bind, normGraph, f_qin_val, s4, normEntries,
       normQuantFor_append]
